@@ -13,13 +13,15 @@ CQ(id, newick, par, leafname, edgename, inst, rootinst, s, qpow, bprobs, mult, c
     [id |-> id, newick |-> newick, par |-> par, leafname |-> leafname, edgename |-> edgename, inst |-> inst,
      rootinst |-> rootinst, s |-> s, qpow |-> qpow, bprobs |-> bprobs, mult |-> mult, cols |-> cols, nbrute |-> nbrute, normalise |-> normalise,
      hmm |-> FALSE, switch |-> Zero, bininst |-> <<>>]
-(* site classes along a hidden Markov chain; classes differ in a model parameter (bininst) *)
-CH(id, newick, par, leafname, edgename, inst, rootinst, s, bprobs, bininst, switch, cols, normalise) ==
-    [CQ(id, newick, par, leafname, edgename, inst, rootinst, s, 1, bprobs, [b \in 1..Len(bprobs) |-> 1], cols, 0, normalise)
+(* site classes along a hidden Markov chain; classes differ in a model parameter (bininst).  The branch LENGTH is shared by the
+   classes, so a class whose instance has another expected rate sees another base: q_b = s^mult[b] with
+   mult[b] * mu_b * n1_b = qpow * mu_edge * n1_edge (checked: BinLengthsConsistent) *)
+CH(id, newick, par, leafname, edgename, inst, rootinst, s, qpow, bprobs, mult, bininst, switch, cols, normalise) ==
+    [CQ(id, newick, par, leafname, edgename, inst, rootinst, s, qpow, bprobs, mult, cols, 0, normalise)
         EXCEPT !.hmm = TRUE, !.switch = switch, !.bininst = bininst]
+
 C(id, newick, par, leafname, edgename, inst, rootinst, s, bprobs, mult, cols, nbrute, normalise) ==
     CQ(id, newick, par, leafname, edgename, inst, rootinst, s, 1, bprobs, mult, cols, nbrute, normalise)
-
 
 (* all columns over a symbol set for the leaves of a tree given as the list of leaf nodes *)
 RECURSIVE SeqOfSet(_)
@@ -70,17 +72,22 @@ T2bins == CQ("t2-F81-2bins-unequal", "(a,b)", <<0, 1, 1>>, <<"", "a", "b">>, <<"
             <<One, Half, Half>>, 7, <<R(1,4), R(3,4)>>, <<4, 8>>, AllCols(3, {2, 3}, Sym5), 25, TRUE)
 
 (* site-HMM: two classes (JC69 = K80 with kappa 1; K80 kappa 3) with UNEQUAL weights 1/4,3/4 (an asymmetric patch chain),
-   bin_switch 1/2; tip a sits on the root (q = 1) so that the exact numbers stay within 32 bits over three columns *)
-ColsOf(n, leaves, seqs) == [i \in 1..Len(seqs[1]) |-> [m \in 1..n |-> IF m \in leaves THEN seqs[m][i] ELSE "N"]]
+   bin_switch 1/2; tip a sits on the root (q = 1) so that the exact numbers stay within 32 bits over two columns.
+   K80(kappa 3) has expected rate 5/4 per unit q-exponent, JC69 3/4: the edge's q = s^3 is s^5 for the JC69 class *)
+ColsOf(n, leaves, seqs) == [i \in 1..Len(seqs[CHOOSE m \in leaves : TRUE]) |-> [m \in 1..n |-> IF m \in leaves THEN seqs[m][i] ELSE "N"]]
 H2 == CH("t2-K80-hmm-unequal", "(a,b)", <<0, 1, 1>>, <<"", "a", "b">>, <<"", "a", "b">>, <<0, 2, 2>>, 1,
-         <<One, One, Half>>, <<R(1,4), R(3,4)>>, <<1, 2>>, R(1,2),
-         ColsOf(3, {2, 3}, << <<>>, <<"A", "C", "T">>, <<"G", "C", "A">> >>), TRUE)
-(* three classes 1/2,1/4,1/4 (patch 1 = class 1; patch 2 = classes 2,3), bin_switch 1/3, an ambiguous symbol *)
+         <<One, One, Half>>, 3, <<R(1,4), R(3,4)>>, <<5, 3>>, <<1, 2>>, R(1,2),
+         ColsOf(3, {2, 3}, << <<>>, <<"A", "C">>, <<"G", "C">> >>), TRUE)
+(* three classes 1/4,1/4,1/2 (patch 1 = class 1 with 1/4; patch 2 = classes 2,3 with 3/4), bin_switch 1/3, an ambiguous symbol *)
 H3 == CH("t2-K80-hmm-3classes", "(a,b)", <<0, 1, 1>>, <<"", "a", "b">>, <<"", "a", "b">>, <<0, 2, 2>>, 1,
-         <<One, One, Half>>, <<R(1,2), R(1,4), R(1,4)>>, <<2, 1, 2>>, R(1,3),
+         <<One, One, Half>>, 3, <<R(1,4), R(1,4), R(1,2)>>, <<3, 5, 3>>, <<2, 1, 2>>, R(1,3),
          ColsOf(3, {2, 3}, << <<>>, <<"A", "R">>, <<"G", "T">> >>), FALSE)
+(* equal patch probabilities (the symmetric chain) *)
+H2eq == CH("t2-K80-hmm-equal", "(a,b)", <<0, 1, 1>>, <<"", "a", "b">>, <<"", "a", "b">>, <<0, 2, 2>>, 1,
+         <<One, One, Half>>, 3, <<R(1,2), R(1,2)>>, <<5, 3>>, <<1, 2>>, R(1,2),
+         ColsOf(3, {2, 3}, << <<>>, <<"A", "T">>, <<"G", "T">> >>), FALSE)
 
-HmmConfigs == <<H2, H3>>
-QuickConfigs == <<T2, S3jc, R3hk, R3sc, S3bins, T2bins, H2, H3>>
-AllConfigs == <<T2, S3jc, S3tn, R3hk, R3sc, B4k8, P4f, S4jc, S3bins, T2bins, H2, H3>>
+HmmConfigs == <<H2, H3, H2eq>>
+QuickConfigs == <<T2, S3jc, R3hk, R3sc, S3bins, T2bins, H2, H3, H2eq>>
+AllConfigs == <<T2, S3jc, S3tn, R3hk, R3sc, B4k8, P4f, S4jc, S3bins, T2bins, H2, H3, H2eq>>
 =============================================================================
